@@ -6,6 +6,8 @@ soundness of the executable judge `eachOnceB`.
 import VizierModel.Lemmas.Restart
 import Mathlib.Data.List.Nodup
 import Mathlib.Data.List.Perm.Subperm
+import Mathlib.Data.List.Perm.Basic
+import Mathlib.Algebra.BigOperators.Group.List.Basic
 
 namespace VizierModel.Restart
 
@@ -191,6 +193,157 @@ theorem map_pointAt_shift (gv : GridValues V) (a n : Nat) :
     rw [this, ih]
 
 end Points
+
+
+/-! ## every prefix of the suggestion stream is balanced -/
+
+section Balanced
+variable {V : Type} [Inhabited V]
+
+/-- the first `T` suggestions -/
+def cyc (gv : GridValues V) (T : Nat) : List (List (String × V)) := (List.range T).map (pointAt gv)
+
+omit [Inhabited V] in
+theorem gridSize_pos (gv : GridValues V) (hpos : GridPos gv) : 0 < gridSize gv := by
+  induction gv with
+  | nil => simp [gridSize, lengths]
+  | cons g gv ih =>
+    rw [gridSize_cons]
+    exact Nat.mul_pos (hpos g (by simp)) (ih (fun x hx => hpos x (by simp [hx])))
+
+theorem cyc_add_size (gv : GridValues V) (T : Nat) :
+    cyc gv (gridSize gv + T) = gridEnum gv ++ cyc gv T := by
+  unfold cyc gridEnum
+  rw [List.range_eq_range', ← List.range'_append_1, List.map_append, map_pointAt_shift]
+  simp only [List.range_eq_range']
+
+theorem cyc_eq_take (gv : GridValues V) (T : Nat) (h : T ≤ gridSize gv) :
+    cyc gv T = (gridEnum gv).take T := by
+  unfold cyc gridEnum
+  rw [← List.map_take, List.take_range, Nat.min_eq_left h]
+
+theorem count_cyc [BEq (List (String × V))] [LawfulBEq (List (String × V))] (gv : GridValues V) (hpos : GridPos gv) (hnd : GridNodup gv)
+    (p : List (String × V)) (hp : IsGridPoint gv p) (q r : Nat) (hr : r < gridSize gv) :
+    (cyc gv (q * gridSize gv + r)).count p = q + ((gridEnum gv).take r).count p := by
+  induction q with
+  | zero => simp [cyc_eq_take gv r (Nat.le_of_lt hr)]
+  | succ q ih =>
+    have e : (q + 1) * gridSize gv + r = gridSize gv + (q * gridSize gv + r) := by
+      rw [Nat.succ_mul]; omega
+    rw [e, cyc_add_size, List.count_append, ih,
+      List.count_eq_one_of_mem (gridEnum_nodup gv hpos hnd) ((mem_gridEnum gv hpos p).mpr hp)]
+    omega
+
+/-- a grid point occurs `T / N` or `T / N + 1` times among the first `T` suggestions -/
+theorem count_cyc_bounds [BEq (List (String × V))] [LawfulBEq (List (String × V))] (gv : GridValues V) (hpos : GridPos gv) (hnd : GridNodup gv)
+    (p : List (String × V)) (hp : IsGridPoint gv p) (T : Nat) :
+    T / gridSize gv ≤ (cyc gv T).count p ∧ (cyc gv T).count p ≤ T / gridSize gv + 1 := by
+  have hN := gridSize_pos gv hpos
+  have h := count_cyc gv hpos hnd p hp (T / gridSize gv) (T % gridSize gv) (Nat.mod_lt _ hN)
+  rw [Nat.div_add_mod' T (gridSize gv)] at h
+  have hle : ((gridEnum gv).take (T % gridSize gv)).count p ≤ 1 :=
+    List.nodup_iff_count_le_one.mp
+      ((List.take_sublist _ _).nodup (gridEnum_nodup gv hpos hnd)) p
+  omega
+
+theorem cyc_balanced [BEq (List (String × V))] [LawfulBEq (List (String × V))] (gv : GridValues V) (hpos : GridPos gv) (hnd : GridNodup gv)
+    (T : Nat) : countsBalanced (gridEnum gv) (cyc gv T) = true := by
+  simp only [countsBalanced, Bool.and_eq_true, List.all_eq_true, List.contains_iff_mem,
+    decide_eq_true_eq]
+  refine ⟨?_, ?_⟩
+  · intro x hx
+    obtain ⟨i, _, rfl⟩ := List.mem_map.mp hx
+    exact (mem_gridEnum gv hpos _).mpr (pointAt_isGridPoint gv hpos i)
+  · intro p hp q hq
+    have h1 := (count_cyc_bounds gv hpos hnd p ((mem_gridEnum gv hpos p).mp hp) T).2
+    have h2 := (count_cyc_bounds gv hpos hnd q ((mem_gridEnum gv hpos q).mp hq) T).1
+    omega
+
+end Balanced
+
+/-! ## the shuffle is a permutation: same grid, other order -/
+
+section Shuffle
+variable {V : Type}
+
+/-- `gv'` is `gv` with every value list permuted and then the parameters permuted
+(`rng.shuffle(items)`; `rng.shuffle(values)` for every parameter) -/
+def ShuffleOf (gv gv' : GridValues V) : Prop :=
+  ∃ mid : GridValues V,
+    List.Forall₂ (fun g m => m.1 = g.1 ∧ m.2.Perm g.2) gv mid ∧ gv'.Perm mid
+
+theorem ShuffleOf.refl (gv : GridValues V) : ShuffleOf gv gv :=
+  ⟨gv, List.forall₂_same.mpr (fun _ _ => ⟨rfl, List.Perm.refl _⟩), List.Perm.refl _⟩
+
+theorem ShuffleOf.exists_of_mem {gv gv' : GridValues V} (h : ShuffleOf gv gv') (g' : String × List V)
+    (hg : g' ∈ gv') : ∃ g ∈ gv, g'.1 = g.1 ∧ g'.2.Perm g.2 := by
+  obtain ⟨mid, hf, hp⟩ := h
+  have hm : g' ∈ mid := hp.mem_iff.mp hg
+  clear hp hg
+  induction hf with
+  | nil => cases hm
+  | cons hd _ ih =>
+    rcases List.mem_cons.mp hm with rfl | hm'
+    · exact ⟨_, by simp, hd⟩
+    · obtain ⟨g, hg, hh⟩ := ih hm'
+      exact ⟨g, by simp [hg], hh⟩
+
+theorem ShuffleOf.gridPos {gv gv' : GridValues V} (h : ShuffleOf gv gv') (hpos : GridPos gv) :
+    GridPos gv' := by
+  intro g' hg'
+  obtain ⟨g, hg, _, hperm⟩ := h.exists_of_mem g' hg'
+  rw [hperm.length_eq]; exact hpos g hg
+
+theorem ShuffleOf.gridNodup {gv gv' : GridValues V} (h : ShuffleOf gv gv') (hnd : GridNodup gv) :
+    GridNodup gv' := by
+  intro g' hg'
+  obtain ⟨g, hg, _, hperm⟩ := h.exists_of_mem g' hg'
+  exact hperm.nodup_iff.mpr (hnd g hg)
+
+theorem ShuffleOf.gridSize_eq {gv gv' : GridValues V} (h : ShuffleOf gv gv') :
+    gridSize gv' = gridSize gv := by
+  obtain ⟨mid, hf, hp⟩ := h
+  have h2 : lengths mid = lengths gv := by
+    clear hp
+    unfold lengths
+    induction hf with
+    | nil => rfl
+    | cons hd _ ih => simp [hd.2.length_eq, ih]
+  have h1 : gridSize gv' = gridSize mid := by
+    unfold gridSize lengths
+    exact (hp.map _).prod_eq
+  rw [h1]; unfold gridSize; rw [h2]
+
+/-- a point of the shuffled grid is, read as a dictionary (order of the entries forgotten), a
+point of the unshuffled grid — and conversely -/
+theorem ShuffleOf.point_iff {gv gv' : GridValues V} (h : ShuffleOf gv gv') :
+    (∀ p', IsGridPoint gv' p' → ∃ p, p.Perm p' ∧ IsGridPoint gv p) ∧
+    (∀ p, IsGridPoint gv p → ∃ p', p'.Perm p ∧ IsGridPoint gv' p') := by
+  obtain ⟨mid, hf, hp⟩ := h
+  -- value lists permuted: same points
+  have key : ∀ p, IsGridPoint mid p ↔ IsGridPoint gv p := by
+    intro p
+    unfold IsGridPoint
+    clear hp
+    induction hf generalizing p with
+    | nil => exact Iff.rfl
+    | cons hd _ ih =>
+      constructor
+      · intro hh
+        cases hh with
+        | cons a b => exact List.Forall₂.cons ⟨a.1.trans hd.1, hd.2.mem_iff.mp a.2⟩ ((ih _).mp b)
+      · intro hh
+        cases hh with
+        | cons a b => exact List.Forall₂.cons ⟨a.1.trans hd.1.symm, hd.2.mem_iff.mpr a.2⟩ ((ih _).mpr b)
+  constructor
+  · intro p' hp'
+    obtain ⟨w, hw, hperm⟩ := List.perm_comp_forall₂ hp.symm hp'
+    exact ⟨w, hperm, (key w).mp hw⟩
+  · intro p hpt
+    obtain ⟨w, hw, hperm⟩ := List.perm_comp_forall₂ hp ((key p).mpr hpt)
+    exact ⟨w, hperm, hw⟩
+
+end Shuffle
 
 /-! ## the executable judge -/
 
